@@ -49,16 +49,6 @@ impl Permissioner {
             if stream_permissions.manage_topics || stream_permissions.read_topics {
                 return Ok(());
             }
-
-            if let Some(topic_permissions) = stream_permissions
-                .topics
-                .as_ref()
-                .and_then(|topics| topics.get(&stream_id))
-            {
-                if topic_permissions.manage_topic || topic_permissions.read_topic {
-                    return Ok(());
-                }
-            }
         }
 
         Err(IggyError::Unauthorized)
